@@ -452,7 +452,7 @@ func (g *pathGen) retString(s pstate, results []ast.Expr) []string {
 func genPaths(pkg *packages.Package) {
 	fns := map[string]bool{"openSent": true, "openConfirm": true, "established": true, "handleNotificationInErr": true,
 		"drainAndResetHoldTimer": true, "sendOpenAndSetHoldTimer": true, "cleanupConnAndReader": true, "sendNotification": true,
-		"sendKeepAlive": true, "startReading": true, "idle": true, "connect": true, "active": true, "dialPeer": true, "closeDialedConn": true, "WriteUpdate": true, "read": true}
+		"sendKeepAlive": true, "startReading": true, "idle": true, "connect": true, "active": true, "dialPeer": true, "closeDialedConn": true, "WriteUpdate": true, "read": true, "run": true, "cleanup": true, "stop": true}
 	var all []codePath
 	for _, file := range pkg.Syntax {
 		if filepath.Base(pkg.Fset.Position(file.Pos()).Filename) != "fsm.go" {
@@ -498,6 +498,14 @@ func genPaths(pkg *packages.Package) {
 		return b.String()
 	}
 	sort.SliceStable(all, func(i, j int) bool { return key(all[i]) < key(all[j]) })
+	// a loop reached along several paths is one family of paths, not one per way of reaching it
+	uniq := all[:0]
+	for i, p := range all {
+		if i == 0 || key(p) != key(all[i-1]) {
+			uniq = append(uniq, p)
+		}
+	}
+	all = uniq
 	var buf bytes.Buffer
 	fmt.Fprintf(&buf, "/-! GENERATED by /verif/extract from /repo on every check run — do not edit.\n")
 	fmt.Fprintf(&buf, "Control paths of the message-handling state functions of fsm.go and their helpers: guards assumed,\n")
